@@ -81,3 +81,22 @@ contract(M, 'pda_to_one_accepting_state_in_place', {'P': 'PDA'}, returns='None',
              'for p in atoms() for a in atoms() for u in atoms() for t in pairs())']}},
          theories=['naming', 'word', 'pda', 'pdax'], props=['C10'],
          note='exact structure of the in-place construction; the language statement (asserts) follows by lemmas one-acc-eclo / one-acc-sim / one-acc-lang: configurations of the new automaton are those of the old one plus (q_accept, s) for every reachable accepting (q, s)')
+
+# ---------------------------------------------------------------------------------------------- C02: bounded enumeration of a PDA (soundness for every closure limit)
+_PWS = 'all(implies(v in lookup(W, c), wlen(v) == %s and over(P.Sigma, v) and c in reachP(P, v)) for c in configs() for v in allwords())'
+_PRS = 'all(implies(v in result, wlen(v) <= %s and over(P.Sigma, v) and pda_accepts(P, v)) for v in allwords())'
+_PW1 = 'all(implies(v in lookup(W1, c), wlen(v) == i + 1 and over(P.Sigma, v) and c in reachP(P, v)) for c in configs() for v in allwords())'
+_PCOM = ['F == P.F', 'Sigma == P.Sigma', '0 <= i and i < n', _PWS % 'i', _PW1, _PRS % 'i + 1']
+contract(M, 'pda_words_up_to_n', {'P': 'PDA', 'n': 'Int'}, returns='Set[Word]', requires=['n >= 0'],
+         ensures=[_PRS % 'n'],
+         types={'W': 'Map[PDAState,Set[Word],default=set]', 'W1': 'Map[PDAState,Set[Word],default=set]', 'result': 'Set[Word]', 'R': SC, 'words_plus_a': 'Set[Word]'},
+         loops={1: {'ghost': 'doneR', 'invariant': ['F == P.F', 'Sigma == P.Sigma', 'R <= reachP(P, nil())', _PWS % '0', _PRS % '0']},
+                2: {'invariant': ['F == P.F', 'Sigma == P.Sigma', '0 <= i and i <= n', _PWS % 'i', _PRS % 'i']},
+                3: {'ghost': 'doneK', 'invariant': _PCOM},
+                4: {'ghost': 'doneA', 'invariant': _PCOM + ['r in W', 'words == lookup(W, r)']},
+                5: {'ghost': 'doneC', 'invariant': _PCOM + ['r in W', 'words == lookup(W, r)', 'a in P.Sigma',
+                                                         'all(wlen(v) == i + 1 and over(P.Sigma, v) for v in words_plus_a)',
+                                                         'all(implies(v in words_plus_a, c in reachP(P, v)) for c in R for v in allwords())']}},
+         theories=['word', 'wordx', 'pda'], props=['C02', 'C19'],
+         note='soundness for every closure limit: every enumerated word has length at most n, is over Sigma and is accepted (W[c] only holds words after which c is reachable); '
+              'exactness below the limit is checked by the bounded stand-in')
